@@ -343,6 +343,44 @@ def run_small(case, ctx):
             check_one(ctx, tskit, spec, ts, tree, 0.0, list(geno), alleles, anc)
 
 
+def enum_large(tier, seed):
+    sizes = [255, 256, 257, 300] if tier == "quick" else [64, 255, 256, 257, 300, 513, 1000]
+    for shape in ("star", "comb", "balanced", "multiroot"):
+        for k in sizes:
+            for pattern in ("majority", "random2", "random4", "missing_mix"):
+                for anc in (None, ["idx", 1]):
+                    yield dict(shape=shape, k=k, pattern=pattern, anc=anc, internal=(k % 2 == 1))
+
+
+def run_large(case, ctx):
+    """Counts per allele beyond 255 / 256 children on one node, deep combs: sizes the random generator never
+    reaches.  Same oracle (reproduce, Sankoff optimum, parent links, unary rule) as C20.parsimony."""
+    import sys
+
+    import tskit
+
+    from ._shapes import lcg, shape_spec
+
+    sys.setrecursionlimit(max(sys.getrecursionlimit(), 5000))
+    spec = shape_spec(case["shape"], case["k"], internal_samples=case["internal"])
+    smp = model.samples(spec)
+    g = lcg(case["k"] * 31 + len(case["pattern"]))
+    if case["pattern"] == "majority":
+        cut = len(smp) * 13 // 15
+        geno = [0 if i < cut else 1 for i in range(len(smp))]
+    elif case["pattern"] == "random2":
+        geno = [next(g) % 2 for _ in smp]
+    elif case["pattern"] == "random4":
+        geno = [next(g) % 4 for _ in smp]
+    else:
+        geno = [(next(g) % 5) - 1 for _ in smp]
+        geno[0] = 2
+    ctx.nt(True)
+    ctx.label("shape:" + case["shape"])
+    ts = gen.build_tables(spec, tskit).tree_sequence()
+    check_one(ctx, tskit, spec, ts, ts.first(), 0.0, geno, ["A", "C", "G", "T"], case["anc"])
+
+
 NT = (">=2 samples and, in some tree of the case: >=3 distinct observed alleles, or a missing observation, or an "
       "internal sample, or >=2 roots, or a fixed ancestral state absent from the data")
 SUBCHECKS = [
@@ -354,6 +392,9 @@ SUBCHECKS = [
     SubCheck("C20.errors", run_err, strategy=err_case, quick=300, thorough=5000,
              rule="every case exercises one documented error (all missing, allele>=64, bad ancestral state "
              "index/string, wrong length)"),
+    SubCheck("C20.large_shapes", run_large, enumerate=enum_large, quick=1, thorough=1,
+             rule="star / comb / balanced / multi-root trees with 255-300 (thorough: up to 1000) samples x 4 genotype patterns "
+                  "x fixed or free ancestral state"),
     SubCheck("C20.exhaustive_small", run_small, enumerate=enum_small, quick=1, thorough=1,
              rule="every forest on <=4 (quick) / <=5 (thorough) nodes x every non-empty sample-flag assignment x "
              "every genotype vector over {-1,0,1,2} with an observation x ancestral_state in {None,0,1,2,absent} "
